@@ -229,22 +229,81 @@ def replay_spec(facts, r):
         return None
     xs, es = to_py_source(w["x"]), to_py_source(w["e"])
     exp = to_py_source(w["expected"]) if "expected" in w and not (isinstance(w["expected"], dict) and "?" in w["expected"]) else None
-    script = f"""
-import json
-from odata_query import ast
+    from contracts.native_ref import NATIVE_REF
+    # the witness, then a small enumeration around it (DESIGN 6): each expression position of the witness's top node replaced by a
+    # path rooted at the variable / a deeper one / one rooted elsewhere; expectations of the variants from an independent reroot
+    script = NATIVE_REF + f"""
+import json, copy, dataclasses
 from odata_query.utils import expression_relative_to_identifier
 x = {xs}
 e = {es}
-import copy
-before = copy.deepcopy(e)
-try:
-    got = expression_relative_to_identifier(x, e)
-    err = None
-except Exception as ex:
-    got, err = None, type(ex).__name__ + ': ' + str(ex)
-expected = {exp if exp else 'None'}
-violates = (err is not None) or (expected is not None and got != expected) or (e != before)
-print(json.dumps({{'got': repr(got), 'error': err, 'expected': repr(expected), 'mutated': e != before, 'violates': bool(violates)}}))
+
+
+def rooted(x, p):
+    return isinstance(p, ast.Attribute) and (p.owner == x or rooted(x, p.owner))
+
+
+def drop_first(p):
+    return ast.Attribute(drop_first(p.owner), p.attr) if isinstance(p.owner, ast.Attribute) else ast.Identifier(p.attr)
+
+
+def reroot(x, e):
+    if isinstance(e, ast.Attribute):
+        return drop_first(e) if rooted(x, e) else e
+    if not dataclasses.is_dataclass(e):
+        return e
+    kw = {{}}
+    for f in dataclasses.fields(e):
+        v = getattr(e, f.name)
+        if isinstance(v, list):
+            kw[f.name] = [reroot(x, i) for i in v]
+        elif isinstance(v, ast._Node):
+            kw[f.name] = reroot(x, v)
+        else:
+            kw[f.name] = v
+    return type(e)(**kw)
+
+
+def variants(x, e):
+    if not isinstance(x, ast.Identifier) or not dataclasses.is_dataclass(e) or type(e).__name__ not in SHAPE:
+        return
+    probes = [ast.Attribute(x, 'a'), ast.Attribute(ast.Attribute(x, 'a'), 'b'), ast.Attribute(ast.Identifier('y'), 'a'),
+              ast.Attribute(ast.Attribute(ast.Attribute(x, 'a'), 'b'), 'c')]
+    for f, spec in SHAPE[type(e).__name__].items():
+        v = getattr(e, f)
+        if spec == "expr" or (isinstance(spec, tuple) and spec[0] == "kind" and "Attribute" in spec[1]):
+            for p in probes:
+                yield dataclasses.replace(e, **{{f: p}})
+        elif spec in ("exprs", "args") and isinstance(v, list):
+            for i in range(len(v) + 1):
+                for p in probes:
+                    yield dataclasses.replace(e, **{{f: v[:i] + [p] + v[i + 1:]}})
+
+
+def run(x, e, expected):
+    before = copy.deepcopy(e)
+    try:
+        got = expression_relative_to_identifier(x, e)
+        err = None
+    except Exception as ex:
+        got, err = None, type(ex).__name__ + ': ' + str(ex)
+    violates = (err is not None) or (expected is not None and got != expected) or (e != before)
+    return {{'tree': repr(e)[:300], 'got': repr(got)[:300], 'error': err, 'expected': repr(expected)[:300], 'mutated': e != before,
+            'violates': bool(violates)}}
+
+
+out = run(x, e, {exp if exp else 'None'})
+if not out['violates']:
+    for v in variants(x, e):
+        try:
+            want = reroot(x, v)
+        except Exception:
+            continue
+        o = run(x, v, want)
+        if o['violates']:
+            out = dict(o, variant_of_witness=True)
+            break
+print(json.dumps(out))
 """
     return {"native_script": script, "input_text": f"x={xs}; e={es}", "required": f"result == {exp}"}
 
